@@ -7,28 +7,35 @@ ENTRY = dict(
         corr_files=["Corr/C17Corr.v"],
         theorems=["c17_restrict", "c17_decompose", "c17_members", "c17_recombine", "c17_expand",
                   "c17_refuses_count", "c17_refuses_missing",
-                  "c17_restrict_paths", "c17_restrict_out_of_range",
+                  "c17_restrict_paths_def", "c17_restrict_out_of_range",
                   "c17_decompose_call_total", "c17_decompose_call_crash",
                   "c17_expand_outcome", "c17_refusal_reason",
                   "c17_call_recombine", "c17_call_cover_exactly_once",
-                  "c17_expand_phase_kept", "c17_expand_zero_qubits",
-                  "c17_interning_contract", "c17_interner_sound",
+                  "c17_expand_phase_kept_def", "c17_expand_zero_qubits_def",
+                  "c17_interning_contract", "c17_interner_sound", "c17_recombine_any_partition",
                   "c17_facts", "c17_source_facts"],
         allowed_axioms=[],
         facts=["value_error_sites", "c17_source_shape"],
         harness="c17",
         level_text="Unbounded theorems (all list lengths incl. 0 qubits and the empty list of observables, all label sequences, all qubit "
-                   "identity lists) about the executable model of restriction/decomposition/expansion of observables: letters kept in "
-                   "order, phase dropped/kept, partition recombines to the original string, refusals; plus outcome (totality) theorems: "
-                   "expansion is answered iff the counts agree and every original qubit is present, otherwise refused with the count "
-                   "message first and else the FIRST missing qubit named, and it never fails otherwise; decomposition as a public call "
-                   "answers iff there are at most num_qubits labels (more labels: IndexError, reachable); the dict returned by that public call "
-                   "covers every qubit index exactly once whatever the label values (None included) and every row recombines to the "
-                   "original letters; expansion keeps every phase on every answered call (closed form for 0-qubit originals); the label "
-                   "glue is modelled (Python labels of any type with dict-key equality, first key object kept, the harness's Interner) "
-                   "and proved sound: interning commutes with the grouping, and the Interner's numbering is the dict-key equality "
-                   "whenever that equality is an equivalence. Closed under the global "
-                   "context. The model is run against the implementation on 1500 generated cases per quick run (about 21000 thorough).",
+                   "identity lists) about the executable model of restriction/decomposition/expansion of observables. "
+                   "READ-OFFS of one-line model definitions (low proof content; the weight of these clauses is on the correspondence and "
+                   "the source-shape fact): c17_restrict (letters kept in the given order, phase dropped; also says the letter is a real "
+                   "letter of the input row, not a default), c17_restrict_paths_def, c17_expand_phase_kept_def, c17_expand_zero_qubits_def. "
+                   "PROVED WITH CONTENT: the label-grouping loop (c17_decompose/c17_members: one entry per distinct label, exactly the "
+                   "ascending positions of that label); recombination over ANY family of index blocks covering exactly 0..n-1, blocks and "
+                   "indices in any order (c17_recombine_any_partition), over the label-induced partition (c17_recombine) and over the dict "
+                   "returned by the public call, which covers every index exactly once whatever the label values, None included "
+                   "(c17_call_recombine, c17_call_cover_exactly_once); expansion: every output position described (same qubit object / "
+                   "identity elsewhere / phase kept / width) (c17_expand); on a well-formed PauliList expansion is answered iff the counts "
+                   "agree and every original qubit is present, otherwise refused, never another failure (c17_expand_outcome), with the "
+                   "count message first and else the FIRST missing qubit named (c17_refusal_reason, about the parallel function "
+                   "expand_refusal, linked to expand by Refused <-> reason present); decomposition as a public call answers IF there are at "
+                   "most num_qubits labels; with more labels it is an IndexError, EXCEPT on the list[Pauli] path with an empty list, which is "
+                   "answered (c17_decompose_call_total/_crash); the label glue (Python labels of any type with dict-key equality, first key "
+                   "object kept, the harness's Interner) is modelled and proved sound (c17_interning_contract, c17_interner_sound). "
+                   "Closed under the global context. The model is run against the implementation on 1500 generated cases per quick run "
+                   "(about 21000 thorough).",
         level_note=STD_NOTE + "No axioms. The source-shape fact (tools/facts_c17.py) pins, statement by statement, the lines the model "
                    "mirrors (no phase argument in the restriction, `!=` count guard on num_qubits, CircuitError handler, result width "
                    "final_circuit.num_qubits, copied phase vector); it is a syntactic tie, not a semantics of Python.",
@@ -36,6 +43,15 @@ ENTRY = dict(
             "Model/Observables.v is a hand-written model of observables_restricted_to_subsystem, decompose_observables, expand_observables; "
             "tied to /repo by the C17 correspondence (vm_compute of the model on the inputs the implementation ran on) and by the "
             "statement-level source fact c17_source_shape",
+            "input preconditions that remain as theorem hypotheses (Qiskit/PauliList invariants, not established by the modelled code): "
+            "every row of the observable list has the width the call is about (length (plets p) = n resp. nobs) - without it the model's "
+            "totalised nth/scatter would invent or drop letters where numpy raises (Example c17_ex_width_premise_needed); the .qubits "
+            "lists of both circuits are duplicate-free (NoDup oq, NoDup fq); c17_recombine_any_partition: the blocks cover exactly "
+            "0..n-1 (disjointness is not needed). Success-case hypothesis: c17_call_recombine/_cover_exactly_once assume the call "
+            "returned Ok D with len(labels) = n (satisfiable by c17_decompose_call_total). Oracle-kind hypotheses: reflexive/symmetric/"
+            "transitive dict-key equality in c17_interner_sound (monitored)",
+            "definitions that theorem statements mention but that live in Proofs/ObservablesP.v (members, pI): not moved to Model/ because "
+            "that file is in the cones of C01/C03/C10/C11/C19; relabel was moved to Model/ObservablesExt.v",
             "Qubit objects are modelled as identity tags assigned by Python ==/hash (what QuantumCircuit.find_bit uses); PauliList "
             "symplectic arrays as one letter per qubit index; classical bits, ancilla flags and register structure are NOT in the model - "
             "the harness varies them (registers owning bits, registers over loose bits, overlapping registers, ancilla registers, clbits, "
